@@ -2,21 +2,30 @@
 
 package httpserver_test
 
-// Storage-backed probe for the read-only half of C16 (external test package: storage imports httpserver): "read requests never change what later reads return, apart
-// from dropping groups that had already expired".
+// Storage-backed probe for the read-only half of C16 (external test package: storage imports httpserver): "read
+// requests never change what later reads return, apart from dropping groups that had already expired".
 //
-// Two identical stacks A and B are built, one after the other, from the same case line: the REAL storage coordinator
-// (inmemory module, one worker, so that requests are handled in the order sent), the REAL evaluator coordinator
-// (caching module) and the REAL HTTP coordinator, sharing one ApplicationContext; the same offsets are ingested
-// under the same virtual clock.  Stack B then serves a batch of GET requests (every registered GET pattern,
-// existing and unknown names, at clock values between T and T2) through coordinator.router.ServeHTTP; stack A
-// serves nothing.  Both move the clock to T2 and dump every Fetch type for every name of the pool twice (the first
-// dump lets storage purge what has expired at T2); the second dumps must be equal.
+// Three identical stacks R, A and B are built, one after the other, from the same case line: the REAL storage
+// coordinator (inmemory module, one worker, so that requests are handled in the order sent), the REAL evaluator
+// coordinator (caching module, cache lifetime longer than the case) and the REAL HTTP coordinator, sharing one
+// ApplicationContext; the same offsets are ingested under the same virtual clock, and what has expired at T is purged.
+//   R serves nothing.
+//   A serves the SWEEP at clock T: every /v3 GET route for every name, both status views of every group in both
+//     orders (status, lag, status, lag / lag, status, lag, status), i.e. every request repeated.
+//   B serves batch G at T, then the same SWEEP at T, then batch H with the clock advancing to T2.
+// Observations compared:
+//   later reads, pairwise   : sweep response i of A == sweep response i of B (status code + canonicalised body);
+//   later reads, repetition : within A and within B, a repeated sweep request is answered as the first time;
+//   storage                 : at T2 every Fetch type for every name is dumped twice (the first dump lets storage purge
+//                             what has expired at T2); the second dumps of R, A and B are equal.
+// State that lives anywhere behind the HTTP layer (storage, the evaluator's cache, ...) is therefore observed the way
+// the property says: through later reads.
 //
-//   e2e EXPIRE INTERVALS NC CLUSTERHEX* I n op* T T2 G m (DT METHOD RAWHEX)*
+//   e2e EXPIRE INTERVALS NC CLUSTERHEX* I n op* T T2 G m (0 METHOD RAWHEX)* S k (0 METHOD RAWHEX)* H j (DT METHOD RAWHEX)*
 //     op:  t SEC | b C T P COUNT OFF | c C G T P OFF TSMS | o C G T P OWNER      (C, G, T, OWNER hex)
 //
-// Output:  E2E same|DIFF:<key> n=<gets> K <code:err:status>*
+// Output:  E2E same|DIFF:<kind>:<detail> n=<gets> sweep=<k> live=<groups> mix=<groups whose complete view lists an OK
+//          partition before a non-OK one> dump=<hash> sw=<hash> K <code:err:status of every G and H request>*
 
 import (
 	"crypto/sha1"
@@ -74,7 +83,7 @@ func veStart(expire int64, intervals int, clusters []string) *veStack {
 	viper.Set("storage.e2e.expire-group", expire)
 	viper.Set("storage.e2e.workers", 1)
 	viper.Set("evaluator.e2e.class-name", "caching")
-	viper.Set("evaluator.e2e.expire-cache", 1)
+	viper.Set("evaluator.e2e.expire-cache", 600) // real seconds: the whole case lies inside the cache lifetime
 	for _, c := range clusters {
 		viper.Set("cluster."+c+".class-name", "kafka")
 		viper.Set("cluster."+c+".servers", []string{"k1:9092"})
@@ -243,6 +252,88 @@ func vhHex(s string) string {
 
 func init() { httpserver.VerifE2E = func(f []string) string { return veE2E(&veToks{f: f}) } }
 
+// veCanonJSON: the body as a client can interpret it, independent of Go map iteration order -- objects with sorted
+// keys (encoding/json does that), arrays sorted by the encoding of their elements (topic / group / partition lists are
+// produced by ranging over maps).  A body that is not JSON is kept as it is.
+func veCanonValue(v interface{}) interface{} {
+	switch x := v.(type) {
+	case map[string]interface{}:
+		for k, e := range x {
+			x[k] = veCanonValue(e)
+		}
+		return x
+	case []interface{}:
+		enc := make([]string, len(x))
+		for i, e := range x {
+			b, _ := json.Marshal(veCanonValue(e))
+			enc[i] = string(b)
+		}
+		sort.Strings(enc)
+		out := make([]interface{}, len(enc))
+		for i, e := range enc {
+			out[i] = json.RawMessage(e)
+		}
+		return out
+	default:
+		return v
+	}
+}
+
+func veCanonBody(b []byte) string {
+	var v interface{}
+	dec := json.NewDecoder(strings.NewReader(string(b)))
+	dec.UseNumber()
+	if err := dec.Decode(&v); err != nil {
+		return "RAW " + string(b)
+	}
+	out, err := json.Marshal(veCanonValue(v))
+	if err != nil {
+		return "RAW " + string(b)
+	}
+	return string(out)
+}
+
+// okBeforeBad: does the complete view list a partition with status OK before one with another status?  (what an
+// in-place filter of the cached partition list needs in order to show)
+func veOkBeforeBad(b []byte) bool {
+	var r struct {
+		Status struct {
+			Partitions []struct {
+				Status string `json:"status"`
+			} `json:"partitions"`
+		} `json:"status"`
+	}
+	if json.Unmarshal(b, &r) != nil {
+		return false
+	}
+	seenOK := false
+	for _, p := range r.Status.Partitions {
+		if p.Status == "OK" {
+			seenOK = true
+		} else if seenOK {
+			return true
+		}
+	}
+	return false
+}
+
+type veResp struct {
+	code int
+	body string
+}
+
+func (r veResp) key() string {
+	h := sha1.Sum([]byte(r.body))
+	return fmt.Sprintf("%d:%s", r.code, hex.EncodeToString(h[:6]))
+}
+
+func veClip(s string) string {
+	if len(s) > 700 {
+		s = s[:700]
+	}
+	return vhHex(s)
+}
+
 func veE2E(t *veToks) string {
 	expire := t.i64()
 	intervals := t.int()
@@ -280,14 +371,20 @@ func veE2E(t *veToks) string {
 		ops[i] = op
 	}
 	tStart, tEnd := t.i64(), t.i64()
-	if t.next() != "G" {
-		panic("expected G")
+	readGets := func(tag string) []veGet {
+		if t.next() != tag {
+			panic("expected " + tag)
+		}
+		m := t.int()
+		gs := make([]veGet, m)
+		for i := range gs {
+			gs[i] = veGet{dt: t.i64(), method: t.next(), raw: vhUnhex(t.next())}
+		}
+		return gs
 	}
-	m := t.int()
-	gets := make([]veGet, m)
-	for i := range gets {
-		gets[i] = veGet{dt: t.i64(), method: t.next(), raw: vhUnhex(t.next())}
-	}
+	batch1 := readGets("G") // served by stack B at the clock value T, before the sweep
+	sweep := readGets("S")  // served by stacks A and B at T: the later reads that are compared
+	batch2 := readGets("H") // served by stack B afterwards, the clock advancing to T2
 	var topics, groups []string
 	for k := range topicSet {
 		topics = append(topics, k)
@@ -299,54 +396,118 @@ func veE2E(t *veToks) string {
 	sort.Strings(groups)
 	defer veSetClock(0)
 
-	run := func(serve bool) (map[string]string, []string) {
+	serveAll := func(s *veStack, gs []veGet, obs *[]string) []veResp {
+		out := make([]veResp, len(gs))
+		for i, g := range gs {
+			veSetClock(tStart + g.dt)
+			rr, crashed, bad := httpserver.VerifServe(s.http, g.method, g.raw)
+			switch {
+			case bad:
+				out[i] = veResp{-1, "BADURL"}
+			case crashed:
+				out[i] = veResp{-2, "CRASH"}
+			default:
+				out[i] = veResp{rr.Code, veCanonBody(rr.Body.Bytes())}
+			}
+			if obs != nil {
+				switch {
+				case bad:
+					*obs = append(*obs, "BADURL")
+				case crashed:
+					*obs = append(*obs, "CRASH")
+				default:
+					*obs = append(*obs, veProject(rr))
+				}
+			}
+		}
+		return out
+	}
+
+	// role 0 = R: serves nothing; 1 = A: serves the sweep only; 2 = B: batch1, sweep, batch2
+	run := func(role int) (map[string]string, []veResp, []string) {
 		veSetClock(tStart)
 		s := veStart(expire, intervals, clusters)
 		defer s.stop()
 		s.ingest(ops)
 		veSetClock(tStart)
+		// what has expired at T is purged on every stack before anything is served, so that between batch and sweep
+		// (same clock value) nothing can expire
+		s.dump(clusters, topics, groups)
 		var obs []string
-		if serve {
-			for _, g := range gets {
-				veSetClock(tStart + g.dt)
-				rr, crashed, bad := httpserver.VerifServe(s.http, g.method, g.raw)
-				switch {
-				case bad:
-					obs = append(obs, "BADURL")
-				case crashed:
-					obs = append(obs, "CRASH")
-				default:
-					obs = append(obs, veProject(rr))
-				}
-			}
+		var sw []veResp
+		if role == 2 {
+			serveAll(s, batch1, &obs)
+		}
+		if role >= 1 {
+			sw = serveAll(s, sweep, nil)
+		}
+		if role == 2 {
+			serveAll(s, batch2, &obs)
 		}
 		veSetClock(tEnd)
 		s.dump(clusters, topics, groups)
-		return s.dump(clusters, topics, groups), obs
+		return s.dump(clusters, topics, groups), sw, obs
 	}
-	dA, _ := run(false)
-	dB, obs := run(true)
+	dR, _, _ := run(0)
+	dA, swA, _ := run(1)
+	dB, swB, obs := run(2)
+
 	verdict := "same"
-	keys := make([]string, 0, len(dA))
-	for k := range dA {
+	keys := make([]string, 0, len(dR))
+	for k := range dR {
 		keys = append(keys, k)
 	}
 	sort.Strings(keys)
 	h := sha1.New()
 	for _, k := range keys {
-		h.Write([]byte(k + "=" + dA[k] + "\n"))
-		if verdict == "same" && dA[k] != dB[k] {
-			verdict = "DIFF:" + vhHex(k) + ":" + vhHex(dA[k]) + ":" + vhHex(dB[k])
+		h.Write([]byte(k + "=" + dR[k] + "\n"))
+		if verdict == "same" && dR[k] != dB[k] {
+			verdict = "DIFF:dump:" + vhHex(k) + ":" + veClip(dR[k]) + ":" + veClip(dB[k])
+		}
+		if verdict == "same" && dR[k] != dA[k] {
+			verdict = "DIFF:dump:" + vhHex(k) + ":" + veClip(dR[k]) + ":" + veClip(dA[k])
 		}
 	}
-	if len(dA) != len(dB) {
-		verdict = "DIFF:size"
+	if len(dR) != len(dB) || len(dR) != len(dA) {
+		verdict = "DIFF:dumpsize"
 	}
-	live := 0
-	for k, v := range dA {
+	// later reads, pairwise: the stack that has served a batch of GETs answers the sweep as the stack that has not
+	for i := range sweep {
+		if verdict == "same" && (swA[i].code != swB[i].code || swA[i].body != swB[i].body) {
+			verdict = fmt.Sprintf("DIFF:sweep:%d:%d:%s:%d:%s", i, swA[i].code, veClip(swA[i].body), swB[i].code, veClip(swB[i].body))
+		}
+	}
+	// later reads, within one stack: the same request repeated (same clock value, inside the evaluator's cache
+	// lifetime, only reads in between) is answered identically
+	for si, sw := range [][]veResp{swA, swB} {
+		first := map[string]int{}
+		for i, g := range sweep {
+			k := g.method + " " + g.raw
+			j, seen := first[k]
+			if !seen {
+				first[k] = i
+				continue
+			}
+			if verdict == "same" && (sw[i].code != sw[j].code || sw[i].body != sw[j].body) {
+				verdict = fmt.Sprintf("DIFF:repeat%s:%d:%d:%s:%d:%s", []string{"A", "B"}[si], j, sw[j].code, veClip(sw[j].body), i, veClip(sw[i].body))
+			}
+		}
+	}
+	live, mix := 0, 0
+	for k, v := range dR {
 		if strings.HasPrefix(k, "consumer:") && v != "nil" {
 			live++
 		}
 	}
-	return fmt.Sprintf("E2E %s n=%d live=%d dump=%s K %s", verdict, len(gets), live, hex.EncodeToString(h.Sum(nil)[:6]), strings.Join(obs, " "))
+	for i, g := range sweep {
+		if strings.HasSuffix(g.raw, "/lag") && swA[i].code == 200 && veOkBeforeBad([]byte(swA[i].body)) {
+			mix++
+		}
+	}
+	hs := sha1.New()
+	for _, r := range swA {
+		hs.Write([]byte(r.key()))
+	}
+	return fmt.Sprintf("E2E %s n=%d sweep=%d live=%d mix=%d dump=%s sw=%s K %s", verdict, len(batch1)+len(batch2), len(sweep), live, mix,
+		hex.EncodeToString(h.Sum(nil)[:6]), hex.EncodeToString(hs.Sum(nil)[:6]), strings.Join(obs, " "))
 }
